@@ -4,9 +4,16 @@
 //! here (its deposit logic is C17's).
 //! Worlds with governance-chosen prices / fee bps / airdrop price, native and IBC factory
 //! denom, with and without payment address, optional whitelist with its own price.
-//! Histories are generated *adaptively*: before every mint the generator asks the real
-//! contracts for the price in force and then sends the payment sweep (price-1, price+1,
-//! wrong denom, two coins, nothing / a coin at price 0, exact).  The executed op list is the
+//! LEDGER RULE: the price in force, the fee rates and the whitelist schedule are NOT read back
+//! from the minter under test: the harness keeps its own ledger of what the principals set
+//! (list price at creation + accepted UpdateMintPrice; accepted UpdateDiscountPrice /
+//! RemoveDiscountPrice; the attached whitelist's window and price as instantiated; governance's
+//! airdrop price and fee rates from creation + sudo) and computes the price in force from the
+//! ledger and the clock (`Ledger::price_in_force`).  Monitors judge against that.
+//! Histories are generated *adaptively*: before every mint the generator computes the ledger
+//! price and sends exact payments for every OTHER price some principal set (list, discount,
+//! whitelist, what the minter itself reports if different; sometimes +-1), then the sweep
+//! (price-1, price+1, wrong denom, two coins, nothing / a coin at price 0), then the exact one.  The executed op list is the
 //! case (so a replay re-runs exactly it).  Monitors (`judge`) evaluate the property text on
 //! the bank balances of every tracked account and the supply before/after every step; they
 //! share no code with the model.  Every minter step is also printed for the Coq model
@@ -38,7 +45,13 @@ pub struct Case {
     pub payment_address: bool,
     pub wl: bool,
     pub wl_price: u128,
+    /// whitelist window (start, end) in seconds after world creation; the minter starts at 3000
+    #[serde(default = "default_wl_window")]
+    pub wl_window: (u64, u64),
     pub ops: Vec<Op>,
+}
+fn default_wl_window() -> (u64, u64) {
+    (1000, 2000)
 }
 
 fn cfg_of(c: &Case) -> SaleCfg {
@@ -60,7 +73,7 @@ fn cfg_of(c: &Case) -> SaleCfg {
     } else {
         WlKind::Plain
     };
-    cfg.wl_windows = vec![(1000, 2000)];
+    cfg.wl_windows = vec![c.wl_window];
     cfg.wl_price = c.wl_price;
     cfg.wl_limit = 20;
     cfg.wl_flex_count = 20;
@@ -112,6 +125,75 @@ struct Pre {
     kind: &'static str, // public | whitelist | airdrop
     payer: String,
     funds: Vec<(String, u128)>,
+}
+
+/// LEDGER RULE (DESIGN §4): what the principals set, kept by the harness from the operations it
+/// sent (and saw accepted) -- never read back from the minter under test.  The creator's list
+/// price (creation + accepted UpdateMintPrice), the creator's discount (accepted
+/// UpdateDiscountPrice / RemoveDiscountPrice), the whitelist the creator attached (its window and
+/// price as instantiated), governance's airdrop price and fee rates (creation + sudo).  The price
+/// in force for a mint is computed from this and the clock:
+///   airdrop (MintTo / MintFor)            -> governance's airdrop coin
+///   whitelist attached and start <= now < end -> the whitelist's price
+///   otherwise                             -> the discount if one is set, else the list price
+#[derive(Clone, Debug)]
+pub struct WlLedger {
+    pub start: u64,
+    pub end: u64,
+    pub price: u128,
+    pub denom: String,
+}
+#[derive(Clone, Debug)]
+pub struct Ledger {
+    pub list_price: u128,
+    pub denom: String,
+    pub discount: Option<u128>,
+    pub wl: Option<WlLedger>,
+    pub mint_fee_bps: u64,
+    pub airdrop_price: u128,
+    pub airdrop_denom: String,
+    pub airdrop_fee_bps: u64,
+    pub dev: String,
+}
+impl Ledger {
+    pub fn wl_active(&self, now: u64) -> bool {
+        matches!(&self.wl, Some(w) if w.start <= now && now < w.end)
+    }
+    pub fn price_in_force(&self, airdrop: bool, now: u64) -> (u128, String) {
+        if airdrop {
+            return (self.airdrop_price, self.airdrop_denom.clone());
+        }
+        match &self.wl {
+            Some(w) if w.start <= now && now < w.end => (w.price, w.denom.clone()),
+            _ => (self.discount.unwrap_or(self.list_price), self.denom.clone()),
+        }
+    }
+    pub fn bps(&self, airdrop: bool) -> u64 {
+        if airdrop {
+            self.airdrop_fee_bps
+        } else {
+            self.mint_fee_bps
+        }
+    }
+    /// every price some principal set that is NOT the one in force now: the amounts a minter that
+    /// reads the wrong source would ask for
+    pub fn other_candidates(&self, airdrop: bool, now: u64) -> Vec<(u128, String)> {
+        let inforce = self.price_in_force(airdrop, now);
+        let mut v: Vec<(u128, String)> = vec![(self.list_price, self.denom.clone())];
+        if let Some(d) = self.discount {
+            v.push((d, self.denom.clone()));
+        }
+        if let Some(w) = &self.wl {
+            v.push((w.price, w.denom.clone()));
+        }
+        if !airdrop {
+            // (the airdrop price is a candidate for public mints only now and then: see `aimed_payments`)
+        }
+        v.retain(|c| *c != inforce);
+        v.sort();
+        v.dedup();
+        v
+    }
 }
 
 type Slots = BTreeMap<(String, String), i128>;
@@ -265,6 +347,7 @@ pub struct Driver {
     steps: Vec<String>,
     pub res: CaseResult,
     op_index: usize,
+    pub ledger: Ledger,
 }
 
 impl Driver {
@@ -282,7 +365,20 @@ impl Driver {
         let init = w.init_state_coq();
         let init_bal = w.balances_coq();
         let v = VARIANTS[c.variant];
+        let denom: String = if c.ibc { IBC.into() } else { NATIVE.into() };
+        let ledger = Ledger {
+            list_price: c.price,
+            denom: denom.clone(),
+            discount: None,
+            wl: if c.wl { Some(WlLedger { start: w.abs_time(c.wl_window.0, 0), end: w.abs_time(c.wl_window.1, 0), price: c.wl_price, denom }) } else { None },
+            mint_fee_bps: c.mint_fee_bps,
+            airdrop_price: c.airdrop_price,
+            airdrop_denom: NATIVE.into(), // the vending factory's airdrop coin is always native
+            airdrop_fee_bps: c.airdrop_fee_bps,
+            dev: String::new(),
+        };
         Ok(Driver {
+            ledger,
             w,
             case: Case { ops: vec![], ..c.clone() },
             vname: v.name,
@@ -296,30 +392,16 @@ impl Driver {
         })
     }
 
-    /// price in force as the contracts report it right now (MintPrice query for public /
-    /// whitelist mints; the factory's airdrop coin for MintTo / MintFor)
+    /// price in force from the ledger and the clock
     pub fn price_in_force(&self, airdrop: bool) -> Option<(u128, String)> {
-        if airdrop {
-            let p = self.w.factory_params();
-            amount_of(&p["extension"]["airdrop_mint_price"])
-        } else {
-            let mp = self.w.mint_price_q()?;
-            amount_of(&mp["current_price"])
-        }
+        Some(self.ledger.price_in_force(airdrop, chain::now(&self.w.app)))
     }
-
-    fn whitelist_active(&self) -> bool {
-        let c = self.w.minter_config();
-        match c["whitelist"].as_str() {
-            Some(a) => self
-                .w
-                .app
-                .wrap()
-                .query_wasm_smart::<Value>(a.to_string(), &serde_json::json!({"config": {}}))
-                .ok()
-                .and_then(|v| v["is_active"].as_bool())
-                .unwrap_or(false),
-            None => false,
+    /// what the minter itself reports (used only to aim payments, never to judge)
+    pub fn reported_price(&self, airdrop: bool) -> Option<(u128, String)> {
+        if airdrop {
+            amount_of(&self.w.factory_params()["extension"]["airdrop_mint_price"])
+        } else {
+            amount_of(&self.w.mint_price_q()?["current_price"])
         }
     }
 
@@ -329,17 +411,49 @@ impl Driver {
             Op::MintTo { who, funds, .. } | Op::MintFor { who, funds, .. } => (true, who.clone(), funds.clone()),
             _ => return None,
         };
-        let (price, denom) = self.price_in_force(airdrop)?;
-        let fp = self.w.factory_params();
-        let bps = if airdrop { fp["extension"]["airdrop_mint_fee_bps"].as_u64()? } else { fp["mint_fee_bps"].as_u64()? };
+        let now = chain::now(&self.w.app);
+        let (price, denom) = self.ledger.price_in_force(airdrop, now);
+        let bps = self.ledger.bps(airdrop);
         let kind = if airdrop {
             "airdrop"
-        } else if self.whitelist_active() {
+        } else if self.ledger.wl_active(now) {
             "whitelist"
         } else {
             "public"
         };
         Some(Pre { price, denom, bps, airdrop, kind, payer, funds })
+    }
+
+    /// the principals' accepted operations update the ledger
+    fn record(&mut self, op: &Op, ok: bool, now: u64) {
+        if !ok {
+            return;
+        }
+        match op {
+            Op::UpdateMintPrice { price, .. } => self.ledger.list_price = *price,
+            Op::UpdateDiscountPrice { price, .. } => self.ledger.discount = Some(*price),
+            Op::RemoveDiscountPrice { .. } => self.ledger.discount = None,
+            Op::SudoParams { mint_fee_bps, airdrop_price, airdrop_fee_bps, .. } => {
+                if let Some(b) = mint_fee_bps {
+                    self.ledger.mint_fee_bps = *b;
+                }
+                if let Some(p) = airdrop_price {
+                    self.ledger.airdrop_price = *p;
+                }
+                if let Some(b) = airdrop_fee_bps {
+                    self.ledger.airdrop_fee_bps = *b;
+                }
+            }
+            Op::SetWhitelist { start_in, end_in, price, ibc, .. } => {
+                self.ledger.wl = Some(WlLedger {
+                    start: now + start_in * 1_000_000_000,
+                    end: now + end_in * 1_000_000_000,
+                    price: *price,
+                    denom: if *ibc { IBC.into() } else { NATIVE.into() },
+                })
+            }
+            _ => {}
+        }
     }
 
     fn violation(&mut self, key: &str, what: String) {
@@ -353,8 +467,10 @@ impl Driver {
         self.case.ops.push(op.clone());
         self.op_index = self.case.ops.len() - 1;
         let pre = self.pre_observe(op);
+        let now0 = chain::now(&self.w.app);
         let bal0 = self.w.balances_raw();
         let out = self.w.run(op);
+        self.record(op, out.ok, now0);
         if !out.is_minter_step {
             *self.res.hist.entry(format!("{}:{}:{}", self.vname, op_kind(op), if out.ok { "ok" } else { "err" })).or_insert(0) += 1;
             return out.ok;
@@ -393,11 +509,11 @@ impl Driver {
             return true;
         }
         let Some(p) = pre else {
-            self.violation("C02:mint-without-price", format!("{}: {:?} succeeded although the price in force could not be queried", self.vname, op));
+            self.violation("C02:mint-without-price", format!("{}: {:?} succeeded although the price in force could not be determined", self.vname, op));
             return true;
         };
         self.res.ok_mints += 1;
-        self.res.distinct.insert(format!("{}|{}|{}|{}|{}|{}", self.vname, p.kind, p.price, p.denom, p.bps, self.case.payment_address));
+        self.res.distinct.insert(format!("{}|{}|{}|{}|{}|{}|d{}|w{}", self.vname, p.kind, p.price, p.denom, p.bps, self.case.payment_address, self.ledger.discount.is_some(), self.ledger.wl.is_some()));
         let facts = MintFacts {
             vname: self.vname.to_string(),
             kind: p.kind,
@@ -514,8 +630,38 @@ fn literals() -> Vec<u128> {
 }
 
 // ---------- adaptive generator ----------
+/// payments that are exact for a price some principal set but that is NOT in force now (the list
+/// price under a discount, the discount during a whitelist, the whitelist price after its end,
+/// what the minter itself reports if that differs): each must be rejected
+fn aimed_payments(rng: &mut Rng, inforce: &(u128, String), others: &[(u128, String)], reported: Option<(u128, String)>) -> Vec<Vec<(String, u128)>> {
+    let exact = exact_payment(inforce.0, &inforce.1);
+    let mut cands: Vec<(u128, String)> = others.to_vec();
+    if let Some(r) = reported {
+        if r != *inforce && !cands.contains(&r) {
+            cands.push(r);
+        }
+    }
+    let mut out: Vec<Vec<(String, u128)>> = vec![];
+    for (p, d) in cands {
+        let mut v = vec![exact_payment(p, &d)];
+        if rng.chance(1, 3) {
+            v.push(exact_payment(p + 1, &d));
+            if p > 1 {
+                v.push(exact_payment(p - 1, &d));
+            }
+        }
+        for f in v {
+            if f != exact && !out.contains(&f) {
+                out.push(f);
+            }
+        }
+    }
+    out
+}
+
 fn sweep(d: &mut Driver, rng: &mut Rng, airdrop: bool, who: &str, n_wrong: usize, do_exact: bool) {
-    let Some((price, dn)) = d.price_in_force(airdrop) else { return };
+    let now = chain::now(&d.w.app);
+    let (price, dn) = d.ledger.price_in_force(airdrop, now);
     let mk = |d: &Driver, rng: &mut Rng, funds: Vec<(String, u128)>| -> Op {
         if !airdrop {
             Op::Mint { who: who.into(), funds }
@@ -527,6 +673,14 @@ fn sweep(d: &mut Driver, rng: &mut Rng, airdrop: bool, who: &str, n_wrong: usize
             Op::MintFor { who: who.into(), token_id: id, recipient: (*rng.pick(&[BUYERS[0], BUYERS[2]])).into(), funds }
         }
     };
+    let mut others = d.ledger.other_candidates(airdrop, now);
+    if airdrop && !rng.chance(1, 3) {
+        others.clear();
+    }
+    for f in aimed_payments(rng, &(price, dn.clone()), &others, d.reported_price(airdrop)) {
+        let op = mk(d, rng, f);
+        d.step(&op);
+    }
     let wrong = wrong_payments(price, &dn);
     for _ in 0..n_wrong {
         let f = rng.pick(&wrong).clone();
@@ -556,6 +710,8 @@ fn gen_case(rng: &mut Rng, variant: usize, thorough: bool, lits: &[u128]) -> (Ca
         payment_address: rng.chance(1, 2),
         wl,
         wl_price: *rng.pick(&[0u128, 1, min_price, price.saturating_sub(1).max(1), 60, 10001, BIG]),
+        // the whitelist runs before the public start, across it, or long after it
+        wl_window: *rng.pick(&[(1000u64, 2000u64), (1000, 2000), (4000, 60_000), (62_000, 100_000)]),
         ops: vec![],
     };
     let mut d = match Driver::new(&c) {
@@ -573,12 +729,17 @@ fn gen_case(rng: &mut Rng, variant: usize, thorough: bool, lits: &[u128]) -> (Ca
         d.step(&Op::SudoParams { min_price: None, mint_fee_bps: None, airdrop_price: Some(c.airdrop_price), airdrop_fee_bps: Some(c.airdrop_fee_bps), offset: None, max_pal: None, shuffle_fee: None });
     }
     let h13 = 13 * 3600;
-    let phases: [(u64, &str); 4] = [(500, "pre"), (1500, "wl"), (3100, "public"), (3100 + h13, "late")];
-    let rounds = if thorough { 3 } else { 2 };
+    // the public sale starts at 3000; the last two instants fall inside / after the late whitelist windows
+    let mut phases: Vec<(u64, &str)> = vec![(500, "pre"), (1500, "early"), (3100, "public"), (3100 + h13, "late")];
+    if c.wl && c.wl_window.0 >= 4000 {
+        phases.push((65_000, "late2"));
+        phases.push((110_000, "late3"));
+    }
     let mut t_extra = 0u64;
     for (secs, phase) in phases {
         d.step(&Op::At { secs: secs + t_extra, nanos: rng.below(1000) as i64 });
-        let started = phase == "public" || phase == "late";
+        let started = secs >= 3000;
+        let rounds = if thorough { 3 } else if secs > 3100 + h13 { 1 } else { 2 };
         for _ in 0..rounds {
             // governance moves the fee schedule / airdrop price
             if rng.chance(2, 5) {
@@ -594,7 +755,7 @@ fn gen_case(rng: &mut Rng, variant: usize, thorough: bool, lits: &[u128]) -> (Ca
             }
             // the creator moves the price / discount
             if rng.chance(1, 4) {
-                let cur: u128 = d.w.minter_config()["mint_price"]["amount"].as_str().unwrap().parse().unwrap();
+                let cur: u128 = d.ledger.list_price;
                 let p = if started {
                     if cur > min_price { *rng.pick(&[cur - 1, min_price, min_price + (cur - min_price) / 2]) } else { cur }
                 } else {
@@ -602,9 +763,9 @@ fn gen_case(rng: &mut Rng, variant: usize, thorough: bool, lits: &[u128]) -> (Ca
                 };
                 d.step(&Op::UpdateMintPrice { who: CREATOR.into(), price: p });
             }
-            if started && rng.chance(1, 3) {
-                let cur: u128 = d.w.minter_config()["mint_price"]["amount"].as_str().unwrap().parse().unwrap();
-                if d.w.minter_config()["discount_price"].get("amount").is_some() && rng.chance(1, 2) {
+            if started && rng.chance(1, 2) {
+                let cur: u128 = d.ledger.list_price;
+                if d.ledger.discount.is_some() && rng.chance(1, 2) {
                     t_extra += 3700;
                     d.step(&Op::At { secs: secs + t_extra, nanos: 0 });
                     d.step(&Op::RemoveDiscountPrice { who: CREATOR.into() });
@@ -614,10 +775,12 @@ fn gen_case(rng: &mut Rng, variant: usize, thorough: bool, lits: &[u128]) -> (Ca
                 }
             }
             // a mint of some kind with its payment sweep
-            let airdrop = if started || (phase == "wl" && c.wl) { rng.chance(1, 3) } else { rng.chance(4, 5) };
+            let _ = phase;
+            let wl_now = d.ledger.wl_active(chain::now(&d.w.app));
+            let airdrop = if started || wl_now { rng.chance(1, 4) } else { rng.chance(4, 5) };
             let who: &str = if airdrop {
                 if rng.chance(11, 12) { CREATOR } else { BUYERS[0] }
-            } else if phase == "wl" && c.wl {
+            } else if wl_now {
                 *rng.pick(&[BUYERS[0], BUYERS[1], BUYERS[0], BUYERS[1], STRANGER])
             } else {
                 *rng.pick(&[BUYERS[0], BUYERS[1], BUYERS[2], STRANGER, CREATOR])
@@ -635,7 +798,7 @@ fn sudo(mint_fee_bps: Option<u64>, airdrop_price: Option<u128>, airdrop_fee_bps:
     Op::SudoParams { min_price: None, mint_fee_bps, airdrop_price, airdrop_fee_bps, offset: None, max_pal: None, shuffle_fee: None }
 }
 fn base_case(variant: usize) -> Case {
-    Case { variant, ibc: false, min_price: 50, price: 100, mint_fee_bps: 1000, airdrop_price: 0, airdrop_fee_bps: 10000, payment_address: false, wl: false, wl_price: 60, ops: vec![] }
+    Case { variant, ibc: false, min_price: 50, price: 100, mint_fee_bps: 1000, airdrop_price: 0, airdrop_fee_bps: 10000, payment_address: false, wl: false, wl_price: 60, wl_window: (1000, 2000), ops: vec![] }
 }
 fn mint(who: &str, funds: Vec<(String, u128)>) -> Op {
     Op::Mint { who: who.into(), funds }
@@ -781,6 +944,86 @@ fn corpus() -> Vec<Case> {
             ],
             ..base_case(variant)
         });
+        // no whitelist at all x discount set / price lowered / discount removed
+        v.push(Case {
+            payment_address: variant % 2 == 0,
+            ops: vec![
+                Op::At { secs: 3100, nanos: 0 },
+                Op::UpdateDiscountPrice { who: CREATOR.into(), price: 80 },
+                mint(BUYERS[0], n(100)),
+                mint(BUYERS[0], n(80)),
+                Op::UpdateMintPrice { who: CREATOR.into(), price: 90 },
+                mint(BUYERS[0], n(90)),
+                mint(BUYERS[0], n(80)),
+                Op::At { secs: 3100 + 3700, nanos: 0 },
+                Op::RemoveDiscountPrice { who: CREATOR.into() },
+                mint(BUYERS[1], n(80)),
+                mint(BUYERS[1], n(100)),
+                mint(BUYERS[1], n(90)),
+            ],
+            ..base_case(variant)
+        });
+        // LEDGER histories.  Whitelist configured and ENDED x discount set: every price some principal
+        // set other than the one in force (list 100, whitelist 60) must be refused, the discount 80 taken;
+        // then the price is lowered under the discount still in force; then the discount is removed
+        v.push(Case {
+            wl: true,
+            wl_price: 60,
+            payment_address: variant % 2 == 1,
+            ops: vec![
+                Op::At { secs: 3100, nanos: 0 },
+                Op::UpdateDiscountPrice { who: CREATOR.into(), price: 80 },
+                mint(BUYERS[0], n(100)),
+                mint(BUYERS[0], n(60)),
+                mint(BUYERS[0], n(81)),
+                mint(BUYERS[0], n(79)),
+                mint(BUYERS[0], n(80)),
+                Op::UpdateMintPrice { who: CREATOR.into(), price: 90 },
+                mint(BUYERS[1], n(90)),
+                mint(BUYERS[1], n(100)),
+                mint(BUYERS[1], n(80)),
+                Op::At { secs: 3100 + 3700, nanos: 0 },
+                Op::RemoveDiscountPrice { who: CREATOR.into() },
+                mint(BUYERS[2], n(80)),
+                mint(BUYERS[2], n(100)),
+                mint(BUYERS[2], n(60)),
+                mint(BUYERS[2], n(90)),
+            ],
+            ..base_case(variant)
+        });
+        // Whitelist configured but NOT YET STARTED (window long after the public start) x discount;
+        // then the whitelist becomes active (its price rules, discount or not); then it ends
+        v.push(Case {
+            wl: true,
+            wl_price: 60,
+            wl_window: (62_000, 100_000),
+            ops: vec![
+                Op::At { secs: 3100, nanos: 0 },
+                mint(BUYERS[0], n(60)),
+                mint(BUYERS[0], n(100)),
+                Op::UpdateDiscountPrice { who: CREATOR.into(), price: 80 },
+                mint(BUYERS[0], n(100)),
+                mint(BUYERS[0], n(60)),
+                mint(BUYERS[0], n(80)),
+                Op::At { secs: 65_000, nanos: 0 },
+                mint(BUYERS[0], n(80)),
+                mint(BUYERS[0], n(100)),
+                mint(BUYERS[0], n(61)),
+                mint(BUYERS[0], n(60)),
+                Op::UpdateDiscountPrice { who: CREATOR.into(), price: 70 },
+                mint(BUYERS[1], n(70)),
+                mint(BUYERS[1], n(60)),
+                Op::At { secs: 101_000, nanos: 0 },
+                mint(BUYERS[1], n(60)),
+                mint(BUYERS[1], n(100)),
+                mint(BUYERS[1], n(70)),
+                Op::At { secs: 105_000, nanos: 0 },
+                Op::RemoveDiscountPrice { who: CREATOR.into() },
+                mint(BUYERS[2], n(70)),
+                mint(BUYERS[2], n(100)),
+            ],
+            ..base_case(variant)
+        });
         // free whitelist on a priced sale
         v.push(Case {
             wl: true,
@@ -904,6 +1147,8 @@ pub struct OeDriver {
     init_bal: String,
     steps: Vec<String>,
     pub res: CaseResult,
+    pub ledger: Ledger,
+    spares: Vec<SpareWl>,
 }
 
 impl OeDriver {
@@ -920,9 +1165,36 @@ impl OeDriver {
         let init = w.init_state_coq();
         let init_bal = w.balances_coq();
         let vname = OE_VARIANTS[cfg.variant].name;
-        Ok(OeDriver { w, ops: vec![], vname, seller: if cfg.payment_address { PAYADDR.into() } else { CREATOR.into() }, init, init_bal, steps: vec![], res: new_result() })
+        let ledger = Ledger {
+            list_price: cfg.price,
+            denom: cfg.fp.denom.clone(),
+            discount: None, // open editions have no discount
+            wl: if cfg.wl != OeWl::None {
+                Some(WlLedger { start: w.abs_time(cfg.wl_windows[0].0, 0), end: w.abs_time(cfg.wl_windows[0].1, 0), price: cfg.wl_price, denom: cfg.fp.denom.clone() })
+            } else {
+                None
+            },
+            mint_fee_bps: cfg.fp.mint_fee_bps,
+            airdrop_price: cfg.fp.airdrop_price,
+            airdrop_denom: cfg.fp.denom.clone(), // the world sets the open-edition airdrop coin in the factory denom
+            airdrop_fee_bps: cfg.fp.airdrop_fee_bps,
+            dev: cfg.fp.dev.clone(),
+        };
+        Ok(OeDriver {
+            w,
+            ops: vec![],
+            vname,
+            seller: if cfg.payment_address { PAYADDR.into() } else { CREATOR.into() },
+            init,
+            init_bal,
+            steps: vec![],
+            res: new_result(),
+            ledger,
+            spares: cfg.spares.clone(),
+        })
     }
-    pub fn price_in_force(&self, airdrop: bool) -> Option<(u128, String)> {
+    /// what the minter itself reports (used only to aim payments, never to judge)
+    pub fn reported_price(&self, airdrop: bool) -> Option<(u128, String)> {
         if airdrop {
             amount_of(&self.w.factory_params()["extension"]["airdrop_mint_price"])
         } else {
@@ -930,17 +1202,37 @@ impl OeDriver {
             amount_of(&mp["current_price"])
         }
     }
-    fn whitelist_active(&self) -> bool {
-        match self.w.minter_config()["whitelist"].as_str() {
-            Some(a) => self
-                .w
-                .app
-                .wrap()
-                .query_wasm_smart::<Value>(a.to_string(), &serde_json::json!({"config": {}}))
-                .ok()
-                .and_then(|v| v["is_active"].as_bool())
-                .unwrap_or(false),
-            None => false,
+    fn record(&mut self, op: &OeOp, ok: bool) {
+        if !ok {
+            return;
+        }
+        match op {
+            OeOp::UpdateMintPrice { price, .. } => self.ledger.list_price = *price,
+            OeOp::SudoParams { mint_fee_bps, airdrop_price, airdrop_fee_bps, dev, .. } => {
+                if let Some(b) = mint_fee_bps {
+                    self.ledger.mint_fee_bps = *b;
+                }
+                if let Some(p) = airdrop_price {
+                    self.ledger.airdrop_price = *p;
+                }
+                if let Some(b) = airdrop_fee_bps {
+                    self.ledger.airdrop_fee_bps = *b;
+                }
+                if let Some(d) = dev {
+                    self.ledger.dev = d.clone();
+                }
+            }
+            OeOp::SetWhitelist { spare, .. } => {
+                if let Some(sp) = self.spares.get(*spare) {
+                    self.ledger.wl = Some(WlLedger {
+                        start: self.w.abs_time(sp.start_in, 0),
+                        end: self.w.abs_time(sp.end_in, 0),
+                        price: sp.price,
+                        denom: if sp.ibc { IBC.into() } else { NATIVE.into() },
+                    });
+                }
+            }
+            _ => {}
         }
     }
     fn violation(&mut self, key: &str, what: String) {
@@ -956,22 +1248,21 @@ impl OeDriver {
             OeOp::MintTo { who, funds, .. } => Some((true, who.clone(), funds.clone())),
             _ => None,
         };
-        let pre = mint.as_ref().and_then(|(airdrop, _, _)| {
-            let (price, denom) = self.price_in_force(*airdrop)?;
-            let fp = self.w.factory_params();
-            let bps = if *airdrop { fp["extension"]["airdrop_mint_fee_bps"].as_u64()? } else { fp["mint_fee_bps"].as_u64()? };
-            let dev = fp["extension"]["dev_fee_address"].as_str()?.to_string();
+        let now = chain::now(&self.w.app);
+        let pre = mint.as_ref().map(|(airdrop, _, _)| {
+            let (price, denom) = self.ledger.price_in_force(*airdrop, now);
             let kind = if *airdrop {
                 "airdrop"
-            } else if self.whitelist_active() {
+            } else if self.ledger.wl_active(now) {
                 "whitelist"
             } else {
                 "public"
             };
-            Some((price, denom, bps, dev, kind))
+            (price, denom, self.ledger.bps(*airdrop), self.ledger.dev.clone(), kind)
         });
         let bal0 = self.w.balances_raw();
         let out = self.w.run(op);
+        self.record(op, out.ok);
         if !out.is_minter_step {
             *self.res.hist.entry(format!("{}:{}:{}", self.vname, oe_op_kind(op), if out.ok { "ok" } else { "err" })).or_insert(0) += 1;
             return out.ok;
@@ -1026,6 +1317,9 @@ pub struct BaseDriver {
     init_bal: String,
     steps: Vec<String>,
     pub res: CaseResult,
+    /// ledger: the factory minimum at creation (the base minter's price) and governance's fee rate
+    price_at_creation: u128,
+    fee_bps: u64,
 }
 impl BaseDriver {
     pub fn new(cfg: &BaseCfg) -> Result<BaseDriver, String> {
@@ -1039,10 +1333,14 @@ impl BaseDriver {
         }
         let init = w.init_state_coq();
         let init_bal = w.balances_coq();
-        Ok(BaseDriver { w, ops: vec![], init, init_bal, steps: vec![], res: new_result() })
+        Ok(BaseDriver { w, ops: vec![], init, init_bal, steps: vec![], res: new_result(), price_at_creation: cfg.min_price, fee_bps: cfg.mint_fee_bps })
     }
-    /// the amount in force: floor(config mint price * factory mint_fee_bps / 10000) ustars
+    /// the amount in force, from the ledger: floor(price at creation * governance's mint_fee_bps / 10000) ustars
     pub fn price_in_force(&self) -> u128 {
+        self.price_at_creation * self.fee_bps as u128 / 10_000
+    }
+    /// what the contracts report (to aim payments only)
+    pub fn reported_price(&self) -> u128 {
         self.w.config_price() * self.w.fee_bps() as u128 / 10_000
     }
     fn violation(&mut self, key: &str, what: String) {
@@ -1054,9 +1352,12 @@ impl BaseDriver {
     pub fn step(&mut self, op: &OeOp) -> bool {
         self.ops.push(op.clone());
         let price = self.price_in_force();
-        let bps = self.w.fee_bps();
+        let bps = self.fee_bps;
         let bal0 = self.w.balances_raw();
         let out = self.w.run(op);
+        if let (true, OeOp::BaseSudoParams { mint_fee_bps: Some(b), .. }) = (out.ok, op) {
+            self.fee_bps = *b;
+        }
         if !out.is_minter_step {
             *self.res.hist.entry(format!("base-minter:{}:{}", oe_op_kind(op), if out.ok { "ok" } else { "err" })).or_insert(0) += 1;
             return out.ok;
@@ -1142,7 +1443,8 @@ fn oe_sudo(mint_fee_bps: Option<u64>, airdrop_price: Option<u128>, airdrop_fee_b
 }
 
 fn oe_sweep(d: &mut OeDriver, rng: &mut Rng, airdrop: bool, who: &str, n_wrong: usize, do_exact: bool) {
-    let Some((price, dn)) = d.price_in_force(airdrop) else { return };
+    let now = chain::now(&d.w.app);
+    let (price, dn) = d.ledger.price_in_force(airdrop, now);
     let mk = |rng: &mut Rng, funds: Vec<(String, u128)>| -> OeOp {
         if airdrop {
             OeOp::MintTo { who: who.into(), recipient: (*rng.pick(&[BUYERS[0], BUYERS[1], STRANGER])).into(), funds }
@@ -1150,6 +1452,14 @@ fn oe_sweep(d: &mut OeDriver, rng: &mut Rng, airdrop: bool, who: &str, n_wrong: 
             OeOp::Mint { who: who.into(), funds }
         }
     };
+    let mut others = d.ledger.other_candidates(airdrop, now);
+    if airdrop && !rng.chance(1, 3) {
+        others.clear();
+    }
+    for f in aimed_payments(rng, &(price, dn.clone()), &others, d.reported_price(airdrop)) {
+        let op = mk(rng, f);
+        d.step(&op);
+    }
     let wrong = wrong_payments(price, &dn);
     for _ in 0..n_wrong {
         let f = rng.pick(&wrong).clone();
@@ -1216,6 +1526,8 @@ fn gen_oe(rng: &mut Rng, variant: usize, thorough: bool, lits: &[u128]) -> (Case
     if wl {
         cfg.wl = oe_wl_kind(variant);
         cfg.wl_price = *rng.pick(&[0u128, 1, min_price, price.saturating_sub(1).max(1), 60, 10001, BIG]);
+        // the whitelist runs before the public start, across it, or long after it
+        cfg.wl_windows = vec![*rng.pick(&[(1000u64, 2000u64), (1000, 2000), (4000, 60_000), (62_000, 100_000)])];
     }
     let mut d = match OeDriver::new(&cfg) {
         Ok(d) => d,
@@ -1226,11 +1538,17 @@ fn gen_oe(rng: &mut Rng, variant: usize, thorough: bool, lits: &[u128]) -> (Case
         }
     };
     let h13 = 13 * 3600;
-    let phases: [(u64, &str); 4] = [(500, "pre"), (1500, "wl"), (3100, "public"), (3100 + h13, "late")];
-    let rounds = if thorough { 3 } else { 2 };
+    let mut phases: Vec<(u64, &str)> = vec![(500, "pre"), (1500, "early"), (3100, "public"), (3100 + h13, "late")];
+    if wl && cfg.wl_windows[0].0 >= 4000 {
+        phases.push((65_000, "late2"));
+        phases.push((110_000, "late3"));
+    }
     for (secs, phase) in phases {
         d.step(&OeOp::At { secs, nanos: rng.below(1000) as i64 });
-        let started = phase == "public" || phase == "late";
+        let started = secs >= 3000;
+        let wl_now = d.ledger.wl_active(chain::now(&d.w.app));
+        let _ = phase;
+        let rounds = if thorough { 3 } else if secs > 3100 + h13 { 1 } else { 2 };
         for _ in 0..rounds {
             if rng.chance(2, 5) {
                 let floor = if capped { 0u128 } else { 1 };
@@ -1241,7 +1559,7 @@ fn gen_oe(rng: &mut Rng, variant: usize, thorough: bool, lits: &[u128]) -> (Case
                 ));
             }
             if rng.chance(1, 4) {
-                let cur: u128 = d.w.minter_config()["mint_price"]["amount"].as_str().unwrap().parse().unwrap();
+                let cur: u128 = d.ledger.list_price;
                 let p = if started {
                     if cur > min_price { *rng.pick(&[cur - 1, min_price, min_price + (cur - min_price) / 2]) } else { cur }
                 } else {
@@ -1249,10 +1567,10 @@ fn gen_oe(rng: &mut Rng, variant: usize, thorough: bool, lits: &[u128]) -> (Case
                 };
                 d.step(&OeOp::UpdateMintPrice { who: CREATOR.into(), price: p });
             }
-            let airdrop = if started || (phase == "wl" && wl) { rng.chance(1, 3) } else { rng.chance(4, 5) };
+            let airdrop = if started || wl_now { rng.chance(1, 3) } else { rng.chance(4, 5) };
             let who: &str = if airdrop {
                 if rng.chance(11, 12) { CREATOR } else { BUYERS[0] }
-            } else if phase == "wl" && wl {
+            } else if wl_now {
                 *rng.pick(&[BUYERS[0], BUYERS[1], BUYERS[0], BUYERS[1], STRANGER])
             } else {
                 *rng.pick(&[BUYERS[0], BUYERS[1], BUYERS[2], STRANGER, CREATOR])
@@ -1270,6 +1588,10 @@ const URI: &str = "ipfs://bafybeigi3bwpvyvsmnbj46ra4hyffcxdeaj6ntfk5jpic5mx27x6i
 
 fn base_sweep(d: &mut BaseDriver, rng: &mut Rng, who: &str, n_wrong: usize, do_exact: bool) {
     let fee = d.price_in_force();
+    let rep = d.reported_price();
+    if rep != fee {
+        d.step(&OeOp::BaseMint { who: who.into(), uri: URI.into(), funds: exact_payment(rep, NATIVE) });
+    }
     let wrong = wrong_payments(fee, NATIVE);
     for _ in 0..n_wrong {
         let f = rng.pick(&wrong).clone();
@@ -1379,6 +1701,36 @@ fn corpus2() -> Vec<Case2> {
                 omint(BUYERS[0], i(100)),
                 omint_to(CREATOR, n(40)),
                 omint_to(CREATOR, i(40)),
+            ],
+        });
+        // LEDGER histories: whitelist not yet started (list price), price lowered after the start, whitelist
+        // active (its price; the list price is refused), whitelist ended (the lowered list price again)
+        let mut cfg = oe_cfg(variant);
+        cfg.wl = oe_wl_kind(variant);
+        cfg.wl_price = 60;
+        cfg.wl_windows = vec![(62_000, 100_000)];
+        cfg.payment_address = variant != 1;
+        v.push(Case2::Oe {
+            cfg,
+            ops: vec![
+                OeOp::At { secs: 3100, nanos: 0 },
+                omint(BUYERS[0], n(60)),
+                omint(BUYERS[0], n(100)),
+                OeOp::UpdateMintPrice { who: CREATOR.into(), price: 90 },
+                omint(BUYERS[0], n(100)),
+                omint(BUYERS[0], n(60)),
+                omint(BUYERS[0], n(91)),
+                omint(BUYERS[0], n(90)),
+                OeOp::At { secs: 65_000, nanos: 0 },
+                omint(BUYERS[0], n(90)),
+                omint(BUYERS[0], n(100)),
+                omint(BUYERS[0], n(59)),
+                omint(BUYERS[0], n(60)),
+                omint(STRANGER, n(60)),
+                OeOp::At { secs: 101_000, nanos: 0 },
+                omint(BUYERS[0], n(60)),
+                omint(BUYERS[0], n(100)),
+                omint(BUYERS[0], n(90)),
             ],
         });
         // free capped edition
@@ -1534,14 +1886,14 @@ pub fn run(a: &Args) {
             results.push((AnyCase::O(c), r));
         }
         let lits = literals();
-        let per_variant = if a.thorough() { 100 } else { 13 };
+        let per_variant = if a.thorough() { 100 } else { 10 };
         for _ in 0..per_variant {
             for variant in 0..6 {
                 let (c, r) = gen_case(&mut rng, variant, a.thorough(), &lits);
                 results.push((AnyCase::V(c), r));
             }
         }
-        let per_oe = if a.thorough() { 80 } else { 10 };
+        let per_oe = if a.thorough() { 80 } else { 8 };
         for _ in 0..per_oe {
             for variant in 0..3 {
                 let (c, r) = gen_oe(&mut rng, variant, a.thorough(), &lits);
@@ -1617,7 +1969,7 @@ pub fn run(a: &Args) {
     balance_shards(&mut coq_cases, 6);
     balance_shards(&mut coq_cases2, 3);
     rep.distinct_nontrivial = distinct.len() as u64;
-    rep.rule = "sale worlds on each of the six vending minters, the three open-edition minters and the base minter, created through their factories with governance-chosen price / mint fee bps / airdrop price / airdrop fee bps (moved by sudo during the history), native or IBC denom, with/without payment address, optional whitelist with its own price, discount set/removed (vending), capped/uncapped (open edition); before every mint the price in force is queried and the sweep price-1, price+1, wrong denom, two coins, nothing (a coin at price 0), exact is sent; evaluations = minter steps executed on the real contracts; distinct_nontrivial = distinct (variant, mint kind, price, denom, fee bps, seller) among SUCCESSFUL mints".into();
+    rep.rule = "sale worlds on each of the six vending minters, the three open-edition minters and the base minter, created through their factories with governance-chosen price / mint fee bps / airdrop price / airdrop fee bps (moved by sudo during the history), native or IBC denom, with/without payment address, optional whitelist with its own price and a window before / across / long after the public start, discount set/removed and price lowered after the start (vending), capped/uncapped (open edition); the price in force comes from the harness's own ledger of the principals' accepted operations and the clock (never from the minter's MintPrice answer); before every mint exact payments for every other candidate price (list, discount, whitelist, minter-reported) are sent, then the sweep price-1, price+1, wrong denom, two coins, nothing (a coin at price 0), exact is sent; evaluations = minter steps executed on the real contracts; distinct_nontrivial = distinct (variant, mint kind, price, denom, fee bps, seller) among SUCCESSFUL mints".into();
     if !coq_cases.is_empty() {
         out.write_cases("C02", "From LP Require Import Num Pay Sg1 Bank MinterVending SaleCorr.", "scase", "sale_check", &coq_cases, 6, &mut rep);
     }
